@@ -101,7 +101,7 @@ func cmdCheck(args []string) int {
 		defer os.RemoveAll(scratch)
 	}
 	P := setup(pkgsOfKeys(cfg.Functions))
-	opts := &runOpts{timeout: timeout, seed: seed, workdir: scratch, jobs: 10}
+	opts := &runOpts{timeout: timeout, seed: seed, workdir: scratch, jobs: 6}
 	results := make([]*FnResult, len(cfg.Functions))
 	var wg sync.WaitGroup
 	fsem := make(chan struct{}, 4)
@@ -148,10 +148,7 @@ func cmdCheck(args []string) int {
 	exit := 0
 	report := func(obl string, fn string, why string, detail string, model string, script string) {
 		os.MkdirAll(replayDir, 0o755)
-		path := filepath.Join(replayDir, sanitize(obl)+".json")
-		if len(path) > 220 {
-			path = path[:220] + ".json"
-		}
+		path := filepath.Join(replayDir, shortName(obl, 100)+".json")
 		rp := map[string]any{"property": id, "obligation": obl, "function": fn, "reason": why, "contract_clause": detail,
 			"solver_output": model, "how_to_rerun": fmt.Sprintf("cd /verif && ./check %s %s", id, *tier)}
 		if script != "" {
@@ -175,6 +172,10 @@ func cmdCheck(args []string) int {
 		for _, e := range r.Errors {
 			exit = 1
 			report(r.Key+"/contract-error", r.Key, "contract could not be applied to the current code: "+e, "", "", "")
+		}
+		if r.Contract == nil && len(r.Errors) == 0 {
+			exit = 1
+			report(r.Key+"/no-contract", r.Key, "function is listed for this property but has no contract in the //go:build verif files", "", "", "")
 		}
 		if r.Vacuity == "unsat" {
 			exit = 1
